@@ -364,6 +364,10 @@ static int opt_work (
 			if (p->lp->basisid != -1)
 			{
 				p->lp->fbasisid = p->lp->basisid;
+				/* only the steepest-edge row norms are maintained by the edit routines;
+				 * any other pricing data still describes the problem as it was */
+				if (p->pricing->dII_price != QS_PRICE_DSTEEP)
+					EGLPNUM_TYPENAME_ILLprice_free_pricing_info (p->pricing);
 			}
 			else
 			{
